@@ -111,6 +111,11 @@ func GenEngineScript(r *Rng, o EngineGenOpts, hist map[string]int) []string {
 		c.fsize = 1 << 20
 	}
 	add("dir db")
+	if o.MergeHeavy && r.Chance(1, 4) {
+		// the same directory spelled with and without a trailing separator across restarts
+		add("pathstyle %d", r.Pick(1, 2, 2))
+		hist["dirpath_spelling_varies"]++
+	}
 	if o.HostileCaller || (o.HostileSome && r.Chance(1, 3)) {
 		add("hostile 1")
 		hist["hostile_caller"]++
@@ -394,6 +399,17 @@ func GenBackupCycle(r *Rng, o EngineGenOpts, hist map[string]int) []string {
 	add("files")
 	add("backup bk")
 	victim := r.Intn(groups)
+	if r.Chance(1, 4) {
+		// the source is emptied completely: the refreshed backup must open to the empty mapping
+		for g := 0; g < groups; g++ {
+			if g != victim {
+				for i := 0; i < per; i++ {
+					add("del %s", key(g, i))
+				}
+			}
+		}
+		hist["backup_cycle_emptied_source"]++
+	}
 	for i := 0; i < per; i++ {
 		add("del %s", key(victim, i))
 	}
